@@ -614,6 +614,59 @@ def _val(x):
     return vlib.frac_json(x)
 
 
+def _direct_volt(v):
+    """a voltage as a user of the builder API writes it: python arithmetic on the SimpleExpression of the loop indices (what
+    LinSpaceBuilder.inner_scope injects), in several operator orders (`dstyle`): reaches __radd__ / __rsub__ / __neg__ /
+    __truediv__ of SimpleExpression, which the rendering of the templates by sympy never produces"""
+    from qupulse.program import SimpleExpression
+    if v['k'] == 'plain':
+        return float(F(v['v']))
+    if v['k'] == 'int':
+        return int(v['v'])
+    base = float(F(v['base']))
+    coefs = [(n, float(F(c))) for n, c in v['coefs'].items()]
+    style = v.get('dstyle', 0)
+    if style == 0:
+        return SimpleExpression(base, {n: c for n, c in coefs})
+    idx = {n: SimpleExpression(base=0, offsets={n: 1}) for n, _ in coefs}
+    if style == 1:                      # number + c * i + ...      (float.__add__ -> SimpleExpression.__radd__, __rmul__)
+        e = base
+        for n, c in coefs:
+            e = e + c * idx[n]
+        return e
+    if style == 2:                      # number - (-c) * i - ...   (__rsub__, __neg__, __sub__, __mul__)
+        e = base
+        for k, (n, c) in enumerate(coefs):
+            e = e - idx[n] * (-c)
+        return e
+    e = None                            # i / (1/c) + ... + number  (__truediv__, __add__ of two expressions, __add__ of a number)
+    for n, c in coefs:
+        term = idx[n] / (1 / c) if c != 0 else idx[n] * 0.0
+        e = term if e is None else e + term
+    return e + base if e is not None else SimpleExpression(base, {})
+
+
+def drive_builder(builder, t):
+    """build the program by calling the ProgramBuilder interface directly (no pulse templates)"""
+    from qupulse.utils.types import TimeType
+    k = t['t']
+    if k == 'hold':
+        d = F(t['dur'])
+        builder.hold_voltage(TimeType.from_fraction(d.numerator, d.denominator), {ch: _direct_volt(v) for ch, v in t['v'].items()})
+    elif k == 'seq':
+        with builder.with_sequence() as b:
+            for x in t['l']:
+                drive_builder(b, x)
+    elif k == 'rep':
+        for b in builder.with_repetition(t['n']):
+            drive_builder(b, t['body'])
+    elif k == 'iter':
+        for b in builder.with_iteration(t['idx'], range(t['start'], t['stop'], t['step'])):
+            drive_builder(b, t['body'])
+    else:
+        raise ValueError(k)
+
+
 def run_impl(case):
     import warnings
     warnings.simplefilter('ignore')
@@ -640,7 +693,12 @@ def run_impl(case):
         with vlib.time_limit(20):
             if not case.get('reuse'):
                 pt = build_template(case['tree'])
-            prog = pt.create_program(parameters=params, program_builder=LinSpaceBuilder(tuple(chans)))
+            if case.get('direct'):
+                builder = LinSpaceBuilder(tuple(chans))
+                drive_builder(builder, case['tree'])
+                prog = builder.to_program()
+            else:
+                prog = pt.create_program(parameters=params, program_builder=LinSpaceBuilder(tuple(chans)))
             if prog is None:
                 obs.update(hist=[], total='0')
                 return obs
@@ -676,6 +734,14 @@ def run_impl(case):
             obs['steps'] = n
             obs['hist'] = [[vlib.frac_json(t), [_val(v) for v in vals]] for t, vals in vm.history]
             obs['total'] = vlib.frac_json(vm.time)
+            if case.get('fam') or case.get('reuse'):
+                # LinSpaceVM.run() (the loop the users call) on a second machine must do what the steps above did
+                vm2 = LinSpaceVM(len(chans))
+                vm2.set_commands(cmds)
+                vm2.run()
+                h2 = [[vlib.frac_json(t), [_val(v) for v in vals]] for t, vals in vm2.history]
+                if h2 != obs['hist'] or vlib.frac_json(vm2.time) != obs['total'] or vm2.current_command != vm.current_command:
+                    return {'crash': 'LinSpaceVM.run() differs from stepping until the end'}
             return obs
     except vlib.Timeout:
         return {'hang': True}
